@@ -322,6 +322,68 @@ def run_chunks(res, prop, execs, variant, name, chunk=60):
 HIST_KINDS = ["T", "M", "NM", "Cnt", "Ref", "NRef", "EP", "EPV", "FS", "U8", "Mod", "PeSec", "Undef"]
 
 
+def proc_histories(res, tier, wd):
+    from checks import func
+    """scans of a live process (content not modelled) ending in every way, each followed by a buffer scan on the same scanner:
+    the buffer scan must report what a fresh scanner reports (entry point, pe / elf module values read through console.log)"""
+    pe, _ = sg.minimal_pe()
+    elf, _ = sg.minimal_elf()
+    src = ('import "pe"\nimport "elf"\nimport "console"\n'
+           'rule ep { condition: console.log("entrypoint=", entrypoint) }\n'
+           'rule pep { condition: console.log("pe.entry_point=", pe.entry_point) }\n'
+           'rule pec { condition: pe.entry_point == pe.rva_to_offset(pe.entry_point_raw) }\n'
+           'rule pes { condition: console.log("pe.sections=", pe.number_of_sections) }\n'
+           'rule pei { condition: console.log("pe.image_base=", pe.image_base) }\n'
+           'rule elfe { condition: console.log("elf.entry_point=", elf.entry_point) }\n'
+           'rule elft { condition: console.log("elf.type=", elf.type) }\n'
+           'rule mk { strings: $a = "MK1;" condition: $a }\n')
+    exe = yv.driver("plain")
+    endings = ["-", "0:e", "1:e", "3:e", "0:a", "2:a"]
+    lines = ["init", "opt iterlog 0", "opt logmatches 0", "compiler 0", "add 0 - " + yv.hx(src.encode()), "getrules 0 0", "cdestroy 0",
+             "data 1 " + yv.hx(pe + b"MK1;"), "data 2 " + yv.hx(elf), "data 3 " + yv.hx(b"plain text MK1;")]
+    cases = []
+    for ending in endings:
+        for tmo in (0, 1):
+            for d in (1, 2, 3):
+                lines += ["note h%d" % len(cases), "scanner 1 0", "scan 1 %d mem - - -" % d, "sdestroy 1",
+                          "scanner 0 0"] + (["stimeout 0 1"] if tmo else []) + ["scan 0 %d proc - - %s" % (d, ending), "stimeout 0 0", "scan 0 %d mem - - -" % d, "sdestroy 0"]
+                cases.append((ending, tmo, d))
+    lines += ["rdestroy 0", "finalize"]
+    run = yv.run_script(exe, lines, wd, name="c10_proc", hang=120, timeout=1200)
+    if not run.complete:
+        res.violation("process scans followed by buffer scans: %s" % yv.crash_summary(run), yv.save_replay("C10", "proc_crash", {"crash": yv.crash_summary(run), "script": run.script_path}))
+        return
+    cur, per = None, {}
+    for e in run.events:
+        if e["e"] == "Note" and e["text"].startswith("h"):
+            cur = per.setdefault(int(e["text"][1:]), {"scans": []})
+        elif cur is None: continue
+        elif e["e"] == "ScanCall": cur["scans"].append({"obs": [], "ret": None, "resid": None})
+        elif e["e"] == "Cb" and cur["scans"]:
+            if e["msg"] in ("match", "nomatch"): cur["scans"][-1]["obs"].append([e["msg"], e.get("rule")])
+            elif e["msg"] == "log": cur["scans"][-1]["obs"].append(["log", e.get("text", e.get("log", ""))])
+        elif e["e"] == "ScanRet" and cur["scans"]:
+            cur["scans"][-1]["ret"] = e["ret"]; cur["scans"][-1]["resid"] = e.get("resid", {})
+    records, owners = [], []
+    nfailed = 0
+    for k, (ending, tmo, d) in enumerate(cases):
+        p = per.get(k)
+        if not p or len(p["scans"]) != 3: continue
+        fresh, proc, after = p["scans"]
+        nfailed += proc["ret"] != 0
+        records.append({"kind": "afterhistory", "fresh": fresh["obs"], "after": after["obs"], "fresh_ret": fresh["ret"], "after_ret": after["ret"],
+                        "flags_changed": max((proc["resid"] or {}).get("flagsChanged", 0), (after["resid"] or {}).get("flagsChanged", 0))})
+        owners.append(("buffer %d after a process scan (callback plan %s, timeout %d s) that returned %s" % (d, ending, tmo, proc["ret"]), json.dumps(fresh["obs"])[:300], json.dumps(after["obs"])[:300]))
+        res.count(1, ("proc-history", ending, tmo, d))
+    res.cov["parts"]["process_scan_histories"] = {"cases": len(records), "process_scans_that_failed": nfailed}
+    bad, known, states = func.tlc_judge2(records, wd, "c10_proc")
+    res.cov["states"] += states; res.cov["transitions"] += states
+    res.cov["traces_validated_against_impl"] += len(records) - len(bad)
+    for b in bad[:20]:
+        res.violation("%s: a fresh scanner reports %s, this scanner %s (flags changed: %s)" % (owners[b][0], owners[b][1], owners[b][2], records[b]["flags_changed"]),
+                      yv.save_replay("C10", "proc_history_%d" % b, {"case": owners[b][0], "record": records[b]}))
+
+
 def c10(res, tier, seed):
     model_check(res, [("history", "MC_Scan_history.cfg"), ("cap", "MC_Scan_cap.cfg"), ("fibers", "MC_Scan_fibers.cfg")])
     expect_model_violation(res, [("D1", "MC_Scan_history_D1.cfg", "ProtocolOK"), ("D10", "MC_Scan_history_D10.cfg", "NoLeak")])
@@ -378,6 +440,7 @@ def c10(res, tier, seed):
                                   flags=r.choice([("match", "nomatch"), ("match",), ("nomatch",)])))
             execs.append({"rules": rules, "scans": scans, "kind": "c10-history"})
         run_chunks(res, "C10", execs, variant, "c10_" + variant)
+    proc_histories(res, tier, yv.workdir("C10"))
     res.cov["rule"] = ("histories of 2-12 scans on one scanner over PE/ELF/text/empty files x outcomes (ok, abort/error at message k, "
                        "1 ns timeout, not-ready resumed / abandoned, match cap hit in the scaled build, regexp fiber pool exhausted by a bomb block "
                        "with the other strings matched through the regexp engine, continue/stop); every call's "
